@@ -1,4 +1,4 @@
-"""tools/run_seeds.py [--harmless] [-j N] [Cxx ...]: apply every stored change (seeded/<id>/patch.diff, or harmless/<id>/patch.diff
+"""tools/run_seeds.py [--harmless] [-j N] [Cxx | Cxx_k | Cxx_k+ ...] (Cxx_k+ = ids k and above): apply every stored change (seeded/<id>/patch.diff, or harmless/<id>/patch.diff
 with --harmless) to a scratch worktree of /repo HEAD, run the property's quick check against it (VERIF_REPO), and record the
 outcome in <dir>/result.json.  Seeds: caught = exit 1 with a VIOLATION line.  Harmless edits: ok = exit 0.
 (The brief's protocol -- apply to /repo, run, `git checkout -- .` -- gives the same verdicts; the worktree keeps /repo untouched so
@@ -18,7 +18,7 @@ items = []
 for d in sorted(glob.glob(f"{root}/C*_*")):
     sid = os.path.basename(d)
     prop = sid.split("_")[0]
-    if props and prop not in props:
+    if props and prop not in props and sid not in props and not any(q.endswith("+") and q[:-1].split("_")[0] == prop and sid.split("_")[1].isdigit() and int(sid.split("_")[1]) >= int(q[:-1].split("_")[1]) for q in props):
         continue
     if not sid.split("_")[1].isdigit() or not os.path.exists(f"{d}/patch.diff") or not os.path.exists(f"contracts/{prop}.py"):
         continue
